@@ -8,3 +8,21 @@ void __CPROVER_deallocate(void *ptr) {
   _Bool r = nondet_bool();
   __CPROVER_deallocated = r ? ptr : __CPROVER_deallocated;
 }
+
+/* memcpy/memmove of a few 32-bit words (the std::vector<int32_t> copies / range inserts of this code: <= 8 CPU ids):
+ * same semantics as the built-ins, but written as word assignments, so that literal CPU ids stay literal when they
+ * are read back (CBMC's built-in memmove goes through byte arrays; every later comparison of such a value would
+ * fork the path exploration).  All other sizes keep the built-ins. */
+#define VF_C43_WORDS 8
+void vf_memmove(void *d, const void *s, uint64_t n) {
+  if (n % 4 == 0 && n <= 4 * VF_C43_WORDS) {
+    uint32_t tmp[VF_C43_WORDS];
+    for (uint64_t i = 0; i < VF_C43_WORDS; ++i) if (i < n / 4) tmp[i] = ((const uint32_t *)s)[i];
+    for (uint64_t i = 0; i < VF_C43_WORDS; ++i) if (i < n / 4) ((uint32_t *)d)[i] = tmp[i];
+    return;
+  }
+  memmove(d, s, n);
+}
+void vf_memcpy(void *d, const void *s, uint64_t n) { vf_memmove(d, s, n); }
+#define vf_memmove vf_memmove_rt_builtin
+#define vf_memcpy vf_memcpy_rt_builtin
